@@ -1583,6 +1583,7 @@ def fp_run(solver, opts):
     sp = odl.rn(2)
     seen = []
     o = dict(opts)
+    sc = float(o.pop('scale', 1.0))          # the whole problem (data, weights of the norms, minimiser) times a power of two
     cb = (lambda z: seen.append(z.copy())) if o.pop('callback', None) == 'cb' else None
 
     def dist(xs, x):
@@ -1590,10 +1591,10 @@ def fp_run(solver, opts):
         return max(float((p - xs).norm()) for p in pts)
     if solver in ('landweber', 'conjugate_gradient', 'conjugate_gradient_normal', 'kaczmarz'):
         A = np.array([[2.0, 1.0], [1.0, 3.0]])
-        xs = sp.element([1.0, -2.0])
+        xs = sc * sp.element([1.0, -2.0])
         op = odl.MatrixOperator(A)
         x = xs.copy()
-        proj = (lambda z: z.ufuncs.maximum(-5.0, out=z)) if o.pop('projection', None) == 'proj' else None
+        proj = (lambda z: z.ufuncs.maximum(-5.0 * sc, out=z)) if o.pop('projection', None) == 'proj' else None
         if solver == 'landweber':
             S.landweber(op, x, op(xs), o.pop('niter'), omega=o.pop('omega'), projection=proj, callback=cb)
         elif solver == 'conjugate_gradient':
@@ -1612,23 +1613,23 @@ def fp_run(solver, opts):
         assert not o, o
         return dist(xs, x), 'A x* = b'
     if solver == 'steepest_descent':
-        xs = sp.element([1.5, -0.5])
+        xs = sc * sp.element([1.5, -0.5])
         f = 0.5 * S.L2NormSquared(sp).translated(xs)
         x = xs.copy()
         ls = o.pop('line_search')
         if ls == 'backtracking':
             ls = S.BacktrackingLineSearch(f)
-        proj = (lambda z: z.ufuncs.maximum(-5.0, out=z)) if o.pop('projection', None) == 'proj' else None
+        proj = (lambda z: z.ufuncs.maximum(-5.0 * sc, out=z)) if o.pop('projection', None) == 'proj' else None
         S.steepest_descent(f, x, line_search=ls, maxiter=o.pop('maxiter'), tol=o.pop('tol'), projection=proj, callback=cb)
         assert not o, o
         return dist(xs, x), 'min 1/2 |x - x*|^2'
     # lasso with orthogonal design: Q = [[0,1],[-1,0]], b = (0.5, 3), c = 1: Q^T b = (-3, 0.5), x* = (-2, 0)
     Q = np.array([[0.0, 1.0], [-1.0, 0.0]])
-    b = sp.element([0.5, 3.0])
-    xs = sp.element([-2.0, 0.0])
+    b = sc * sp.element([0.5, 3.0])
+    xs = sc * sp.element([-2.0, 0.0])
     Qop = odl.MatrixOperator(Q)
     if solver in ('proximal_gradient', 'accelerated_proximal_gradient'):
-        f = S.L1Norm(sp)
+        f = sc * S.L1Norm(sp)
         g = 0.5 * S.L2NormSquared(sp).translated(b) * Qop
         x = xs.copy()
         kw = {}
@@ -1641,7 +1642,7 @@ def fp_run(solver, opts):
         return dist(xs, x), 'lasso, orthogonal design, x* = soft(Q^T b, 1) = (-2, 0)'
     if solver == 'pdhg':
         # min |x|_1 + 1/2 |Q x - b|^2 : dual y* = Q x* - b
-        f = S.L1Norm(sp)
+        f = sc * S.L1Norm(sp)
         g = 0.5 * S.L2NormSquared(sp).translated(b)
         ys = Qop(xs) - b
         x, y = xs.copy(), ys.copy()
@@ -1660,14 +1661,14 @@ def fp_run(solver, opts):
         assert not o, o
         return max(dist(xs, x), float((y - ys).norm())), 'lasso as saddle point, (x*, y*) = ((-2, 0), Q x* - b)'
     # solvers whose dual variables are created inside the function (start at zero): a in ker L, dual solution 0
-    a = sp.element([1.5, 1.5])
+    a = sc * sp.element([1.5, 1.5])
     L = odl.MatrixOperator(np.array([[1.0, -1.0]]))
     if solver == 'forward_backward_pd':
         # min |x|_1 + 1/2 |x - a'|^2 + |L x - L x*|_1 : x* = soft(a', 1), dual 0 (kink of g at L x*)
-        ap = sp.element([3.0, -0.5])
-        xs2 = sp.element([2.0, 0.0])
-        f, h = S.L1Norm(sp), 0.5 * S.L2NormSquared(sp).translated(ap)
-        g = S.L1Norm(L.range).translated(L(xs2))
+        ap = sc * sp.element([3.0, -0.5])
+        xs2 = sc * sp.element([2.0, 0.0])
+        f, h = sc * S.L1Norm(sp), 0.5 * S.L2NormSquared(sp).translated(ap)
+        g = sc * S.L1Norm(L.range).translated(L(xs2))
         kw = {}
         lv = o.pop('l')
         if lv == 'l2sq':
@@ -1677,7 +1678,7 @@ def fp_run(solver, opts):
         assert not o, o
         return dist(xs2, x), 'min |x|_1 + 1/2 |x - (3, -1/2)|^2 + |L(x - x*)|_1, x* = (2, 0)'
     f = 0.5 * S.L2NormSquared(sp).translated(a)
-    g = S.L1Norm(L.range)
+    g = sc * S.L1Norm(L.range)
     x = a.copy()
     if solver == 'admm_linearized':
         S.admm_linearized(x, f, g, L, o.pop('tau'), o.pop('sigma'), o.pop('niter'), callback=cb)
@@ -1804,12 +1805,282 @@ def _limit_option_probes(out, tier):
            % (lam, r), None)
 
 
+# ================================================= scales, warm starts, alias-unsafe operators
+SCALES = [2.0 ** -20, 2.0 ** -10, 2.0 ** 10, 2.0 ** 20]      # powers of two: float arithmetic commutes with them
+
+
+def _scale_probes(out):
+    """The properties are scale-invariant, absolute tolerances in the code are not.  (1) EXACT equivariance: data and
+    start multiplied by a power of two must give the same callbacks multiplied by it, bit for bit (same number of
+    them); (2) warm starts x* + tiny: CG / CGN still reduce the error to rounding level within n steps, residuals
+    stay monotone; (3) the closed-form fixed points at every scale."""
+    import odl
+    S = odl.solvers
+    A = np.array([[4.0, 1.0, 0.0], [1.0, 3.0, 1.0], [0.0, 1.0, 2.0]])
+    M = np.array([[2.0, 1.0, 0.0], [1.0, -1.0, 1.0], [0.0, 3.0, 1.0], [1.0, 1.0, 1.0]])
+    x0 = [1.0, -2.0, 0.5]
+    bA = [3.0, -1.0, 2.0]
+    bM = [1.0, 2.0, -1.0, 0.5]
+
+    def run(solver, s):
+        tr = []
+        cb = lambda z: tr.append(np.asarray(z).copy())
+        if solver == 'conjugate_gradient':
+            op = odl.MatrixOperator(A)
+            x = op.domain.element([s * t for t in x0])
+            S.conjugate_gradient(op, x, op.range.element([s * t for t in bA]), 3, callback=cb)
+        elif solver == 'conjugate_gradient_normal':
+            op = odl.MatrixOperator(M)
+            x = op.domain.element([s * t for t in x0])
+            S.conjugate_gradient_normal(op, x, op.range.element([s * t for t in bM]), 3, callback=cb)
+        elif solver == 'landweber':
+            op = odl.MatrixOperator(M)
+            x = op.domain.element([s * t for t in x0])
+            S.landweber(op, x, op.range.element([s * t for t in bM]), 4, omega=0.0625, callback=cb)
+        elif solver == 'kaczmarz':
+            ops = [odl.MatrixOperator(M[:2]), odl.MatrixOperator(M[2:])]
+            x = ops[0].domain.element([s * t for t in x0])
+            S.kaczmarz(ops, x, [ops[0].range.element([s * t for t in bM[:2]]), ops[1].range.element([s * t for t in bM[2:]])],
+                       3, omega=[0.125, 0.0625], callback=cb, callback_loop='inner')
+        elif solver in ('proximal_gradient', 'accelerated_proximal_gradient'):
+            sp = odl.rn(3)
+            f = s * S.L1Norm(sp)
+            g = 0.5 * S.L2NormSquared(sp).translated([s * t for t in bA]) * odl.MatrixOperator(A * 0.25)
+            x = sp.element([s * t for t in x0])
+            getattr(S, solver)(x, f, g, 0.5, 4, callback=cb)
+        return tr, np.asarray(x).copy()
+    for solver in ('conjugate_gradient', 'conjugate_gradient_normal', 'landweber', 'kaczmarz', 'proximal_gradient',
+                   'accelerated_proximal_gradient'):
+        base, xb = run(solver, 1.0)
+        for s in SCALES:
+            tr, xf = run(solver, s)
+            ok = len(tr) == len(base) and all(np.array_equal(t, s * b) for t, b in zip(tr, base)) and np.array_equal(xf, s * xb)
+            _P(out, ok, 'scale-equivariance-%s' % solver,
+               '%s with data and start multiplied by 2**%d gives the same iterates multiplied by it, bit for bit '
+               '(%d callbacks vs %d)' % (solver, int(np.log2(s)), len(tr), len(base)),
+               "import sys\nsys.path.insert(0, %r)\nfrom harness import c12\nout=[]\nc12._scale_probes(out)\n"
+               "bad=[p.what for p in out if not p.ok]\nobserved=bad[:3]; ok=not bad\n" % C.VERIF,
+               {'scale': s, 'final': xf.tolist(), 'expected_final': (s * xb).tolist()})
+    # warm starts: x0 = x* + tiny * delta, at several magnitudes of the problem
+    xs = np.array([1.0, -2.0, 0.5])
+    for s in [1.0] + SCALES:
+        for eps in (2.0 ** -20, 2.0 ** -30):
+            op = odl.MatrixOperator(A)
+            sol = op.domain.element(s * xs)
+            x = op.domain.element(s * (xs + eps * np.array([1.0, -1.0, 2.0])))
+            e0 = float((x - sol).inner(op(x - sol)))
+            vals = [e0]
+            S.conjugate_gradient(op, x, op(sol), 3, callback=lambda z: vals.append(float((z - sol).inner(op(z - sol)))))
+            e1 = float((x - sol).inner(op(x - sol)))
+            _P(out, _mono(vals, 1e-9) and e1 <= 1e-12 * e0, 'warm-start-conjugate_gradient',
+               'conjugate_gradient from x* + 2**%d * delta (problem scale 2**%d): energy error %.3g -> %.3g within n steps'
+               % (int(np.log2(eps)), int(np.log2(s)), e0, e1),
+               "import odl, numpy as np\nA=np.array(%r); op=odl.MatrixOperator(A); s=%r; eps=%r\nsol=op.domain.element(s*np.array([1.,-2.,.5]))\n"
+               "x=op.domain.element(s*(np.array([1.,-2.,.5])+eps*np.array([1.,-1.,2.]))); e0=float((x-sol).inner(op(x-sol)))\n"
+               "odl.solvers.conjugate_gradient(op,x,op(sol),3)\nobserved=float((x-sol).inner(op(x-sol))); expected='<= 1e-12 * %%g' %% e0; ok=observed<=1e-12*e0\n"
+               % (A.tolist(), s, eps))
+            opn = odl.MatrixOperator(M)
+            x = opn.domain.element(s * (xs + eps * np.array([1.0, -1.0, 2.0])))
+            rhs = opn(opn.domain.element(s * xs))
+            r0 = float((opn(x) - rhs).norm())
+            vals = [r0]
+            S.conjugate_gradient_normal(opn, x, rhs, 3, callback=lambda z: vals.append(float((opn(z) - rhs).norm())))
+            r1 = float((opn(x) - rhs).norm())
+            _P(out, _mono(vals, 1e-9) and r1 <= 1e-6 * r0, 'warm-start-conjugate_gradient_normal',
+               'conjugate_gradient_normal from x* + 2**%d * delta (scale 2**%d): residual %.3g -> %.3g within n steps'
+               % (int(np.log2(eps)), int(np.log2(s)), r0, r1), None)
+    # the closed-form fixed points at every scale (default options and one non-default set)
+    for solver in FP_OPTIONS:
+        sets = list(_fp_option_sets(solver))
+        for s in SCALES:
+            for label, opts in (sets[0], sets[-1]):
+                o = dict(opts, scale=s)
+                try:
+                    d, problem = fp_run(solver, o)
+                    ok, why = d <= FP_TOL * s, 'moved by %.3g' % d
+                except Exception as e:
+                    ok, why = False, 'raised %s: %s' % (type(e).__name__, str(e)[:100])
+                _P(out, ok, 'fixed-point-at-scale-%s' % solver,
+                   '%s started at the known minimiser of the problem scaled by 2**%d (%s) stays there (%s)'
+                   % (solver, int(np.log2(s)), label, why), _fp_replay(solver, o).replace('<= %g' % FP_TOL, '<= %g' % (FP_TOL * s)))
+
+
+def _alias_pool(rng):
+    """linear operators with domain == range whose in-place call is NOT safe when out aliases the input (and a few
+    that are), as (name, operator)"""
+    import odl
+    r2 = odl.rn(2)
+    mk = lambda m: odl.MatrixOperator(np.array(m, dtype=float))
+    A, B, Cm, D = mk([[2, 1], [0, 1]]), mk([[1, 0], [1, 1]]), mk([[0, 1], [1, 0]]), mk([[1, -1], [2, 1]])
+    Id = odl.IdentityOperator(r2)
+    d = odl.uniform_discr(0, 4, 4)
+    G = odl.Gradient(d, pad_mode='constant')
+    pool = [('ProductSpaceOperator-offdiag', odl.ProductSpaceOperator([[A, B], [Cm, D]])),
+            ('ProductSpaceOperator-antidiag', odl.ProductSpaceOperator([[None, A], [B, None]])),
+            ('OperatorSum', A + D),
+            ('OperatorComp', D * A),
+            ('Reduction*Broadcast', odl.ReductionOperator(Id, A) * odl.BroadcastOperator(Id, B)),
+            ('Divergence*Gradient', (-odl.Divergence(range=d, pad_mode='constant')) * G),
+            ('scaled-sum', 0.5 * (A + B * Cm)),
+            ('MatrixOperator', mk([[1, 2], [-1, 1]]))]
+    return pool
+
+
+class _FirstDraw(object):
+    """a stand-in for the driver's generator whose first randrange returns a fixed seed (used by replays)"""
+
+    def __init__(self, seed):
+        self.seed = seed
+
+    def randrange(self, *a):
+        return self.seed
+
+
+def _alias_pool_probes(rng, out):
+    """solvers on square operators from the pool against the NumPy recursion on the measured matrices"""
+    import odl
+    S = odl.solvers
+    seed = rng.randrange(2 ** 31)
+    rng = __import__('random').Random(seed)
+
+    class _Fixed(object):               # what the replay passes in: a generator whose first draw is `seed`
+        pass
+    REPLAY = ("import sys, random\nsys.path.insert(0, %r)\nfrom harness import c12\nout=[]\n"
+              "c12._alias_pool_probes(random.Random(%d), out)\nbad=[(p.key, p.detail) for p in out if not p.ok]\n"
+              "observed=bad[:2]; ok=not bad\n" % (C.VERIF, seed))
+    for name, op in _alias_pool(rng):
+        M, Mt = _matrix(op), _matrix(op.adjoint)
+        n = M.shape[0]
+        w = _weights(op.domain)
+        b = np.array([float(rng.randint(-3, 3)) for _ in range(n)])
+        x0 = np.array([float(rng.randint(-2, 2)) for _ in range(n)])
+        om = float(2.0 ** np.floor(np.log2(1.0 / max(1.0, np.linalg.norm(M, 2) ** 2))))
+
+        def close(tr, ref):
+            return len(tr) == len(ref) and all(np.allclose(t, r, rtol=1e-9, atol=1e-11) for t, r in zip(tr, ref))
+        # landweber
+        tr = []
+        x = _unflat(op.domain, x0.copy())
+        S.landweber(op, x, _unflat(op.range, b), 4, omega=om, callback=lambda z: tr.append(_flat(z).copy()))
+        ref, y = [], x0.copy()
+        for _ in range(4):
+            y = y - om * Mt.dot(M.dot(y) - b)
+            ref.append(y.copy())
+        _P(out, close(tr, ref), 'alias-pool-landweber-%s' % name,
+           'landweber on %s (domain == range) equals the NumPy recursion x - omega A^*(A x - b)' % name, REPLAY,
+           {'M': M.tolist(), 'b': b.tolist(), 'x0': x0.tolist(), 'omega': om, 'got': [t.tolist() for t in tr[:2]],
+            'want': [t.tolist() for t in ref[:2]]})
+        # kaczmarz with the operator twice (two right-hand sides)
+        tr = []
+        x = _unflat(op.domain, x0.copy())
+        S.kaczmarz([op, op], x, [_unflat(op.range, b), _unflat(op.range, 2 * b)], 2, omega=[om, om / 2],
+                   callback=lambda z: tr.append(_flat(z).copy()), callback_loop='inner')
+        ref, y = [], x0.copy()
+        for _ in range(2):
+            for bb, oo in ((b, om), (2 * b, om / 2)):
+                y = y - oo * Mt.dot(M.dot(y) - bb)
+                ref.append(y.copy())
+        _P(out, close(tr, ref), 'alias-pool-kaczmarz-%s' % name, 'kaczmarz on [%s, %s] equals the NumPy recursion' % (name, name), REPLAY)
+        # conjugate_gradient_normal
+        tr = []
+        x = _unflat(op.domain, x0.copy())
+        S.conjugate_gradient_normal(op, x, _unflat(op.range, b), 2, callback=lambda z: tr.append(_flat(z).copy()))
+        ip = lambda u, v: float(np.sum(w * u * v))
+        ref, y = [], x0.copy()
+        dd = b - M.dot(y)
+        p = Mt.dot(dd)
+        s_ = p.copy()
+        ss = ip(s_, s_)
+        for _ in range(2):
+            q = M.dot(p)
+            qq = ip(q, q)
+            if qq == 0:
+                break
+            a = ss / qq
+            y = y + a * p
+            dd = dd - a * q
+            s_ = Mt.dot(dd)
+            ssn = ip(s_, s_)
+            p = s_ + (ssn / ss) * p
+            ss = ssn
+            ref.append(y.copy())
+        _P(out, close(tr, ref), 'alias-pool-conjugate_gradient_normal-%s' % name,
+           'conjugate_gradient_normal on %s equals the NumPy recursion' % name, REPLAY)
+        # conjugate_gradient on the self-adjoint positive operator  A^* A + I  built by operator arithmetic
+        T = op.adjoint * op + odl.IdentityOperator(op.domain)
+        TM = Mt.dot(M) + np.eye(n)
+        tr = []
+        x = _unflat(op.domain, x0.copy())
+        S.conjugate_gradient(T, x, _unflat(op.domain, b), 2, callback=lambda z: tr.append(_flat(z).copy()))
+        ref, y = [], x0.copy()
+        r = b - TM.dot(y)
+        p = r.copy()
+        rr = ip(r, r)
+        for _ in range(2):
+            if rr == 0:
+                break
+            dv = TM.dot(p)
+            pd = ip(p, dv)
+            if pd == 0:
+                break
+            al = rr / pd
+            y = y + al * p
+            r = r - al * dv
+            rn_ = ip(r, r)
+            p = r + (rn_ / rr) * p
+            rr = rn_
+            ref.append(y.copy())
+        _P(out, close(tr, ref), 'alias-pool-conjugate_gradient-%s' % name,
+           'conjugate_gradient on A^*A + I with A = %s equals the NumPy recursion' % name, REPLAY)
+        # power method on the same self-adjoint operator: never above the largest eigenvalue
+        from odl.operator.oputils import power_method_opnorm
+        est = float(power_method_opnorm(op, xstart=_unflat(op.domain, np.ones(n)), maxiter=10))
+        true = _true_opnorm(op)
+        _P(out, est <= true * (1 + 1e-9), 'alias-pool-power-method-%s' % name,
+           'power_method_opnorm(%s) = %r <= %r' % (name, est, true), REPLAY)
+        # non-smooth solvers with L from the pool (operators on rn(n) only): pdhg / admm against NumPy
+        if isinstance(op.domain, odl.ProductSpace) or not isinstance(op.domain, type(odl.rn(1))) or op.domain != odl.rn(n):
+            continue
+        sp = op.domain
+        a = np.array([float(rng.randint(-2, 2)) for _ in range(n)])
+        f = 0.5 * S.L2NormSquared(sp).translated(a)
+        g = S.L1Norm(sp)
+        tau, sigma = 0.25, 0.5
+        tr = []
+        x = sp.element(x0.copy())
+        S.pdhg(x, f, g, op, 3, tau=tau, sigma=sigma, callback=lambda z: tr.append(_flat(z).copy()))
+        ref, xx, xr, yy = [], x0.copy(), x0.copy(), np.zeros(n)
+        for _ in range(3):
+            yy = np.clip(yy + sigma * M.dot(xr), -1, 1)
+            xn = (xx - tau * Mt.dot(yy) + tau * a) / (1 + tau)
+            xr = 2 * xn - xx
+            xx = xn
+            ref.append(xx.copy())
+        _P(out, close(tr, ref), 'alias-pool-pdhg-%s' % name, 'pdhg with L = %s equals the NumPy recursion' % name, REPLAY)
+        tr = []
+        x = sp.element(x0.copy())
+        S.admm_linearized(x, f, g, op, 0.125, 1.0, 3, callback=lambda z: tr.append(_flat(z).copy()))
+        ref, xx, zz, uu = [], x0.copy(), np.zeros(n), np.zeros(n)
+        t_, s_g = 0.125, 1.0
+        for _ in range(3):
+            v = xx - t_ / s_g * Mt.dot(M.dot(xx) + uu - zz)
+            xx = (v + t_ * a) / (1 + t_)
+            Lx = M.dot(xx)
+            zn = np.sign(Lx + uu) * np.maximum(np.abs(Lx + uu) - s_g, 0)
+            uu = uu + Lx - zn
+            zz = zn
+            ref.append(xx.copy())
+        _P(out, close(tr, ref), 'alias-pool-admm_linearized-%s' % name, 'admm_linearized with L = %s equals the NumPy recursion' % name, REPLAY)
+
+
 def search(rng, broken):
     """Something is broken (a proof over regenerated code, the translator, the correspondence): evaluate the property's
     own statement option by option and return the first input on which it fails (not a recorded finding)."""
     known = C.load_findings(PID)
     out = []
     _fixed_point_option_probes(out)
+    _scale_probes(out)
+    _alias_pool_probes(rng, out)
     _limit_option_probes(out, 'quick')
     for p in out:
         if not p.ok and p.key not in known:
@@ -1841,6 +2112,8 @@ def extra_coverage():
 def probes(rng, tier):
     out = []
     _fixed_point_option_probes(out)
+    _scale_probes(out)
+    _alias_pool_probes(rng, out)
     _limit_option_probes(out, tier)
     np.random.seed(rng.randrange(2 ** 31))
     _linear_probes(rng, tier, out)
